@@ -183,7 +183,7 @@ func (fs *fineSched) dump() string {
 	defer fs.mu.Unlock()
 	out := ""
 	for _, t := range fs.order {
-		out += fmt.Sprintf("[%s goid=%d parked=%v site=%s wantLock=%v holds=%d] ", t.name, t.goid, t.parked, t.site, t.wantLock != nil, t.holds)
+		out += fmt.Sprintf("[%s at %s parked=%v] ", t.name, t.site, t.parked)
 	}
 	return out
 }
